@@ -212,7 +212,7 @@ def decimalBits (sg dv : Nat) (e10 : Int) : Nat :=
   if dv = 0 then sg
   else if e10 > 400 then sg + 2047 * 2 ^ 52
   else if e10 < -800 then sg
-  else if e10 ≥ 0 then sg + dOfRat (dv * 10 ^ e10.toNat) 1
+  else if e10 ≥ 0 then sg + dOfNat (dv * 10 ^ e10.toNat)
   else sg + dOfRatQ dv (10 ^ (-e10).toNat)
 
 /-- decimal text with a fraction and an optional exponent: the digit value of `ip ++ fp` at decimal exponent `x − |fp|` -/
